@@ -126,6 +126,8 @@ def build(spec: Dict[str, Any], mode_name: str, with_art: bool = True) -> Tuple[
                 raise RuntimeError(f"VERIF-FAULT calc {fname}")
             if has_art and features.artifact_to_save and n["fail"] != "nosave":
                 features.save_artifact = f"art-{fname}-{spec['val']}"
+            if n["deps"] and data is not None and hasattr(data, "append_column"):       # siblings share the object: extend, do not replace
+                return data.append_column(fname, pa.array([1, 2, 3]))
             return pa.table({fname: [1, 2, 3]})
         ns: Dict[str, Any] = {"calculate_feature": classmethod(calculate_feature),
                               "compute_framework_rule": classmethod(lambda cls: {PyArrowTable})}
